@@ -72,6 +72,9 @@ def assemble_rule(ctx):
 
 
 def run(ctx):
+    from ..shared import flag_pair_rule as _flag_pair_rule
+
+    _flag_pair_rule(ctx, "R13.10", scope=lambda f, _s=("EasyFEA.FEM._field", "EasyFEA.FEM._forms", "EasyFEA.Simulations._weakforms"): f.module.name.startswith(_s), min_instances=1)
     from ..shared import shared_container_rule as _shared_container_rule
 
     _shared_container_rule(ctx, "R13.9", scope=lambda f, _s=("EasyFEA.FEM._field", "EasyFEA.FEM._forms", "EasyFEA.FEM._linalg", "EasyFEA.Models._weakforms", "EasyFEA.Simulations._weakforms"): f.module.name.startswith(_s), min_instances=30)
